@@ -6,6 +6,7 @@ Package graphql offers a param extractor and basic types for building GraphQL re
 package graphql
 
 import (
+	"bytes"
 	"encoding/json"
 	"errors"
 	"io"
@@ -196,8 +197,16 @@ func (e *Extractor) fromBody(r io.Reader) (*GraphQLRequest, error) {
 	}
 	vars := map[string]interface{}{}
 
-	if err := json.Unmarshal(b, &vars); err != nil {
+	// numbers keep their literal (a float64 changes integers above 2^53 and rejects
+	// large exponents)
+	dec := json.NewDecoder(bytes.NewReader(b))
+	dec.UseNumber()
+	if err := dec.Decode(&vars); err != nil {
 		return nil, err
+	}
+	if _, err := dec.Token(); err != io.EOF {
+		// data after the top-level value
+		return nil, ErrBodyNotObject
 	}
 	if vars == nil {
 		// the JSON literal null decodes into a nil map without an error
